@@ -31,12 +31,39 @@ package ipk
 //@     return foldInt(n, func(i int) int64 { return fileSize(cs[i]) })
 //@ }
 //
+//@ spec func ipkItem(c *files.Content, pkgMTime time.Time) string {
+//@     switch c.Type {
+//@     case "dir", "implicit dir":
+//@         return ufStr("tarHead", files.AsExplicitRelativePath(c.Destination), int64(c.FileInfo.Mode&0o7777), int64(0), byte('5'), "", c.FileInfo.Owner, c.FileInfo.Group, pkgMTime)
+//@     case "symlink":
+//@         return ufStr("tarHead", files.AsExplicitRelativePath(c.Destination), int64(0), int64(0), byte('2'), c.Source, "", "", pkgMTime)
+//@     case "file", "tree", "config", "config|noreplace", "config|missingok":
+//@         return ufStr("tarHead", files.AsExplicitRelativePath(c.Destination), int64(c.FileInfo.Mode), int64(len(fsContent(c.Source))), byte('0'), "", c.FileInfo.Owner, c.FileInfo.Group, c.FileInfo.MTime) + fsContent(c.Source)
+//@     }
+//@     return ""
+//@ }
+//
+//@ spec func regularModesArePermissionBits(cs files.Contents) bool {
+//@     return forall(0, len(cs), func(i int) bool {
+//@         return implies(cs[i].Type != "dir" && cs[i].Type != "implicit dir" && cs[i].Type != "symlink", cs[i].FileInfo.Mode < 1<<18)
+//@     })
+//@ }
+//
+//@ spec func ipkPayload(cs files.Contents, pkgMTime time.Time, n int) string {
+//@     return foldStr(n, func(i int) string { return ipkItem(cs[i], pkgMTime) })
+//@ }
+//
 //@ inline func populateDataTar(info *nfpm.Info, tw *tar.Writer) (instSize int64, err error)
 //@   requires [C03] info != nil && tw != nil && files.SpecContentsNonNil(info.Contents)
 //@   requires files.SpecPlanInputOK(info.Contents, !info.MTime.IsZero())
 //@   requires !ghostFlag("failed") && !ghostFlag("clockRead") && !ghostFlag("envRead")
+//@   requires [C01] !info.MTime.IsZero()
+//@   requires [C01] regularModesArePermissionBits(info.Contents)
+//@   ensures [C01] payload-is-exactly-the-plan: implies(err == nil, ghostStr(tw, "tarManifest") == old(ghostStr(tw, "tarManifest")) + ipkPayload(info.Contents, info.MTime, len(info.Contents)))
 //@   ensures [C03] installed-size-is-the-payload-size: implies(err == nil, instSize == payloadSize(info.Contents, len(info.Contents)))
 //@   loop 0 (iter int, instSize int64)
+//@     invariant [C01] payload-so-far: inlined() || ghostStr(tw, "tarManifest") == old(ghostStr(tw, "tarManifest")) + ipkPayload(info.Contents, info.MTime, iter)
+//@     invariant [C01] between-entries: inlined() || (ghostInt(tw, "tarRemaining") == 0 && !ghostBool(tw, "tarClosed") && ghostAny(tw, "werr") == nil)
 //@     invariant [C03] size-so-far: instSize == payloadSize(info.Contents, iter)
 //@     invariant [C03] index-in-range: 0 <= iter && iter <= len(info.Contents)
 //@     invariant [C06] no-failure-so-far: !ghostFlag("failed")
@@ -173,6 +200,7 @@ package ipk
 //@ pure func renderControl$2(strs string) (result string)
 //
 //@ import "time"
+//@ import "os"
 //
 //@ spec func ctlItem(name string, mode int64, body string, mtime time.Time) string {
 //@     return ufStr("tarHead", name, mode, int64(len(body)), byte('0'), "", "", "", mtime) + body
